@@ -38,6 +38,7 @@ import (
 	"github.com/restic/restic/internal/verifshim/gatebe"
 	"github.com/restic/restic/internal/verifshim/oracle"
 	"github.com/restic/restic/internal/verifshim/vh"
+	"github.com/restic/restic/internal/verifshim/xplore"
 )
 
 type verifC32Src struct {
@@ -310,4 +311,11 @@ func TestVerif_C32(t *testing.T) {
 		crashx.Explore(r, t, sc, bound, seen)
 	}
 	r.Extra("deviation_bound", bound)
+}
+
+// TestVerifRace_C32 runs every scenario body free (gates answer at once, no oracle) under the race detector.
+func TestVerifRace_C32(t *testing.T) {
+	xplore.Free = 2
+	defer func() { xplore.Free = 0 }()
+	TestVerif_C32(t)
 }
